@@ -122,6 +122,7 @@ class MusicToLines(ToLines):
 class FromLines(Contract):
     """Section.from_lines(): in-format rows are read to exactly the bytes P8Spec prescribes."""
     mode = 'bv'
+    result_is_object = True
     property_ids = ('C16', 'C03')
     inline = UTIL_INLINE
     cls = None
@@ -176,6 +177,7 @@ def sfx_default(i):
 class SfxEmpty(Contract):
     target = 'pico8.sfx.sfx:Sfx.empty'
     mode = 'bv'
+    result_is_object = True
     property_ids = ('C16', 'C03')
     inline = UTIL_INLINE
 
